@@ -3727,6 +3727,12 @@ static gboolean priv_map_reply_to_conn_check_request (NiceAgent *agent, NiceStre
 	}
 
 	if (ok_pair->nominated == TRUE) {
+	  /* A nominated pair could come from a FAILED state too (e.g. consent
+	   * on the previously selected pair expired while an ICE restart is
+	   * in progress): FAILED -> CONNECTED is not a valid transition. */
+	  if (component->state == NICE_COMPONENT_STATE_FAILED)
+	    agent_signal_component_state_change (agent,
+		stream->id, component->id, NICE_COMPONENT_STATE_CONNECTING);
           conn_check_update_selected_pair (agent, component, ok_pair);
 	  priv_print_conn_check_lists (agent, G_STRFUNC,
 	      ", got a nominated pair");
